@@ -5,7 +5,7 @@
    run).  The theorems of Props/C13.v quantify over EVERY instance of [ops]. *)
 From Coq Require Import List NArith ZArith Bool.
 From Coq Require Import Strings.Byte.
-From Falco Require Import Base.Res Base.Bytes Model.StoreSyntax.
+From Falco Require Import Base.Res Base.Bytes Model.Float Model.StoreSyntax.
 Import ListNotations.
 Local Open Scope Z_scope.
 
@@ -36,7 +36,7 @@ Definition float_text : str := [x3c; x66; x6c; x6f; x61; x74; x3e]. (* "<float>"
 Definition std_render (v : val) : str :=
   match v with
   | VInt z _ => dec_of_Z z
-  | VFloat _ _ => float_text
+  | VFloat b _ => fmt3 (sf_of_bits b)          (* strconv.FormatFloat(v, 'f', 3, 64), exact (Model/Float.v) *)
   | VStr s ns _ => if ns then null_text else s
   | VBool b _ => if b then [x31] else [x30]
   | VRTime ns _ =>
@@ -53,6 +53,7 @@ Definition std_equal (a b : val) : res bool :=
   | VStr s ns _, VStr t nt _ => OK (if ns || nt then false else str_eqb s t)
   | VBool x _, VBool y _ => OK (Bool.eqb x y)
   | VRTime x _, VRTime y _ => OK (Z.quot x 1000000 =? Z.quot y 1000000)
+  | VFloat x _, VFloat y _ => OK (feq (sf_of_bits x) (sf_of_bits y))
   | _, _ => Err
   end.
 Definition std_order (f : Z -> Z -> bool) (a b : val) : res bool :=
@@ -86,6 +87,11 @@ Definition std_assign (op : aop) (l r : val) : res val :=
   match op, l, r with
   | AEq, VInt _ ll, VInt y _ => OK (VInt y ll)
   | AEq, VFloat _ ll, VFloat y _ => OK (VFloat y ll)
+  | AEq, VFloat _ ll, VInt y _ => OK (VFloat (bits_of_sf (f_of_int y)) ll)            (* float64(int64) *)
+  | AEq, VInt _ ll, VFloat y false => OK (VInt (f_to_int (sf_of_bits y)) ll)          (* int64(float64), literal refused *)
+  | AEq, VStr _ _ ll, VFloat y false => OK (VStr (fmt3 (sf_of_bits y)) false ll)
+  | AAdd, VFloat x ll, VFloat y _ => OK (VFloat (bits_of_sf (fadd (sf_of_bits x) (sf_of_bits y))) ll)   (* finite, no overflow *)
+  | ASub, VFloat x ll, VFloat y _ => OK (VFloat (bits_of_sf (fsub (sf_of_bits x) (sf_of_bits y))) ll)
   | AEq, VStr _ _ ll, VStr t nt _ => OK (VStr t nt ll)
   | AEq, VStr _ _ ll, VInt y false => OK (VStr (dec_of_Z y) false ll)
   | AEq, VStr _ _ ll, VBool b _ => OK (VStr (if b then [x31] else [x30]) false ll)
